@@ -54,11 +54,12 @@ fn item_len(i: Item) -> usize {
     match i {
         Item::JmpNext => 2,
         Item::Loop => 5,
-        Item::JeTaken | Item::JeUntaken => 5,
+        Item::JeTaken => 6,
+        Item::JeUntaken => 5,
         Item::CallNext => 5,
         Item::Ret | Item::Int3 => 1,
         Item::PushRet => 6,
-        Item::CallRax | Item::JmpRax => 9,
+        Item::CallRax | Item::JmpRax => 10,
         Item::CallOverRet => 8,
         Item::IndirectTwice => 20,
         Item::Recurse => 18,
@@ -74,7 +75,9 @@ fn assemble(p: &[Item]) -> Vec<u8> {
         match it {
             Item::JmpNext => out.extend_from_slice(&[0xEB, 0x00]),
             Item::Loop => out.extend_from_slice(&[0x48, 0xFF, 0xC9, 0x75, 0xFB]), // dec rcx; jne -5
-            Item::JeTaken => out.extend_from_slice(&[0x48, 0x39, 0xC0, 0x74, 0x00]), // cmp rax,rax; je +0
+            // targets that are NOT the fall-through address: a source address derived from the
+            // target (or the other way round) must not come out right by coincidence
+            Item::JeTaken => out.extend_from_slice(&[0x48, 0x39, 0xC0, 0x74, 0x01, 0x90]), // cmp rax,rax; je +1; (nop)
             Item::JeUntaken => out.extend_from_slice(&[0x48, 0x85, 0xE4, 0x74, 0x00]), // test rsp,rsp; je +0
             Item::CallNext => out.extend_from_slice(&[0xE8, 0, 0, 0, 0]),
             Item::Ret => out.push(0xC3),
@@ -86,12 +89,12 @@ fn assemble(p: &[Item]) -> Vec<u8> {
             Item::CallRax => {
                 out.extend_from_slice(&[0x48, 0xC7, 0xC0]);
                 out.extend_from_slice(&(next as u32).to_le_bytes());
-                out.extend_from_slice(&[0xFF, 0xD0]);
+                out.extend_from_slice(&[0xFF, 0xD0, 0x90]); // call rax; (nop, skipped)
             }
             Item::JmpRax => {
                 out.extend_from_slice(&[0x48, 0xC7, 0xC0]);
                 out.extend_from_slice(&(next as u32).to_le_bytes());
-                out.extend_from_slice(&[0xFF, 0xE0]);
+                out.extend_from_slice(&[0xFF, 0xE0, 0x90]); // jmp rax; (nop, skipped)
             }
             Item::Int3 => out.push(0xCC),
             // call +2 ; jmp +1 ; ret   (a real call/return pair: call the ret, come back, skip it)
